@@ -100,6 +100,20 @@ def stepOld (db : DB) (s : Stmt) : Except Err (DB × Obs) :=
 
 end Impl
 
+/-! ### what the cursor holds around a statement (`_execute` resets `_arrow_table`, `_arrow_table_fetch_index`, `_rowcount` FIRST) -/
+
+/-- the result fields of a cursor -/
+structure CurRes where
+  result : Option ResultSet := none      -- `_arrow_table` (None: fetch raises "No open result set")
+  rowcount : Option Nat := none
+deriving DecidableEq, Repr
+
+/-- one `cursor.execute` on a cursor that may hold an earlier result: the fields are reset before anything can fail -/
+def Impl.executeOn (_prev : CurRes) (db : DB) (s : Stmt) : CurRes × Except Err DB :=
+  match Impl.step db s with
+  | .error e => ({}, .error e)
+  | .ok (db', o) => ({ result := some ⟨o.names, o.rows⟩, rowcount := some o.rowcount }, .ok db')
+
 /-! ### `connection.execute_string` and `nop_regexes` (conn.py:128-141, cursor.py:140-143) -/
 
 /-- `execute_string`: one **new** cursor per statement, executed in order; the first rejected statement raises and
